@@ -378,6 +378,38 @@ func c14Case(w *core.Worker, i int) {
 		}
 		vars0 := exec(varsQ + ";")
 		tab0 := exec("SELECT * FROM t;")
+		// (0) one statement reads a column through the same aggregate before and after another aggregate (with DISTINCT, with
+		// an ordering) has read it: both readings agree
+		{
+			ag := []string{"SUM(%s)", "AVG(%s)", "MEDIAN(%s)", "LISTAGG(%s, '|')", "JSON_AGG(%s)", "COUNT(%s)", "MIN(%s)", "MAX(%s)", "VAR(%s)", "STDEV(%s)"}
+			mid := []string{"COUNT(DISTINCT %s)", "SUM(DISTINCT %s)", "LISTAGG(DISTINCT %s, '|')", "JSON_AGG(DISTINCT %s)", "MEDIAN(DISTINCT %s)", "LISTAGG(%s, '|') WITHIN GROUP (ORDER BY %s DESC)", "MIN(%s)", "AVG(DISTINCT %s)"}
+			f1, f2 := ag[r.Intn(len(ag))], ag[r.Intn(len(ag))]
+			m1, m2 := strings.ReplaceAll(mid[r.Intn(len(mid))], "%s", "c1"), strings.ReplaceAll(mid[r.Intn(len(mid))], "%s", "c2")
+			a, b := fmt.Sprintf(f1, "c1"), fmt.Sprintf(f2, "c2")
+			for _, q := range []string{
+				fmt.Sprintf("SELECT %s, %s, %s, %s, %s, %s FROM t;", a, m1, a, b, m2, b),
+				fmt.Sprintf("SELECT %s, %s, %s, %s, %s, %s FROM t GROUP BY c3 IS NULL;", a, m1, a, b, m2, b),
+				fmt.Sprintf("SELECT %s, %s FROM t GROUP BY id %% 2 HAVING %s IS NOT NULL OR TRUE;", a, b, m1),
+			} {
+				res := exec(q)
+				if res.Err != nil || len(res.Views) != 1 {
+					continue
+				}
+				w.Count("aggregate_readings_compared", 1)
+				for _, row := range res.Views[0].Rows {
+					if len(row) == 6 && (row[0] != row[2] || row[3] != row[5]) {
+						viol("reading-changed-by-another-aggregate", fmt.Sprintf("%s returned %v: the same aggregate over the same column gives two values", q, valsToStrs(row)))
+						break
+					}
+				}
+			}
+			// the third statement has no second reading: its values are those of the statement without the HAVING clause
+			h1 := exec(fmt.Sprintf("SELECT %s, %s FROM t GROUP BY id %% 2;", a, b))
+			h2 := exec(fmt.Sprintf("SELECT %s, %s FROM t GROUP BY id %% 2 HAVING %s IS NOT NULL OR TRUE;", a, b, m1))
+			if h1.Err == nil && h2.Err == nil && !same(h1, h2) {
+				viol("reading-changed-by-another-aggregate", fmt.Sprintf("SELECT %s, %s .. GROUP BY id %% 2 gives other values once HAVING has evaluated %s", a, b, m1))
+			}
+		}
 		// (1) literals, three times
 		l1 := exec("SELECT " + expr + ";")
 		l2 := exec("SELECT " + expr + ";")
